@@ -9,7 +9,9 @@ Case (JSON):
    "gnames": "str" | "int",                                               # how group indices are named
    "yidx" / "sfidx" / "xidx": "default" | "perm" | "offset" | "str",       # pandas index LABELS of y / sensitive_features / X
    "perm": [permutation of 0..n-1],                                       #   (only for the series / dataframe containers);
-   "yname": bool}                                                         # y DataFrame with a named column
+   "yname": bool,                                                         # y DataFrame with a named column
+   "query": [[group index or -1 (= a value not seen by fit), "score"], ...],  # rows handed to _pmf_predict / predict
+   "pseed": int}                                                          # random_state of that predict call
 Rows are always paired by POSITION; index labels must never matter.
 """
 import itertools
@@ -48,7 +50,24 @@ PINNED_GENERATED = {
     "ThresholdTables.lean": PINNED_TABLES_SHA256,
     "TradeoffSrc.lean": "2411eff130ddf215fd55dce7de4a6d7f84552638d6c42a80f166a5ed92c0dc9f",
     "ThresholderSrc.lean": "60c4e7a52add3ca98ac97b54ab0f52a748037edc7e9dd85958bc1203e46d2c3e",
+    "ThresholdFitSrc.lean": "b4c864c257fde297b40071a4c32b225e4e2c34903cb8005de94db88f04dbf5f6",
 }
+
+
+def generated_changed(pinned):
+    """True when one of the generated files `name -> sha256 of the pinned tree's lift` has other content"""
+    import hashlib
+    import os
+    from . import leanrun
+    for name, want in pinned.items():
+        path = os.path.join(leanrun.LEAN, "FairModel", "Generated", name)
+        try:
+            with open(path, "rb") as f:
+                if hashlib.sha256(f.read()).hexdigest() != want:
+                    return True
+        except OSError:
+            pass
+    return False
 
 
 def tables_changed():
@@ -171,13 +190,36 @@ def gen_case(rng, tier, small=False):
     while len(rows) > 1 and perm == sorted(perm):
         rng.shuffle(perm)
     kinds = ["default", "perm", "perm", "offset", "str"]
-    return {"constraint": cons, "objective": obj, "flip": rng.random() < 0.5,
+    query = gen_query(rng, rows)
+    return {"query": query, "pseed": rng.randrange(10 ** 6), "constraint": cons, "objective": obj, "flip": rng.random() < 0.5,
             "grid": rng.choice(GRIDS if not small else [1, 2, 3, 5, 7, 10, 10, 100]),
             "rows": rows, "container": rng.choice(["ndarray", "ndarray2d", "list", "list2d", "series", "series",
                                                    "dataframe", "dataframe"]),
             "gnames": rng.choice(["str", "int"]),
             "yidx": rng.choice(kinds), "sfidx": rng.choice(kinds), "xidx": rng.choice(kinds), "perm": perm,
             "yname": rng.random() < 0.5}
+
+
+def gen_query(rng, rows):
+    """query rows for the PREDICT path: training rows, scores exactly ON a candidate threshold (midpoints between
+    consecutive distinct scores of the group), unseen scores between / beyond the training scores, +-large scores, and now
+    and then a sensitive-feature value the fit has not seen"""
+    gs = sorted({r[0] for r in rows})
+    q = []
+    for r in rng.sample(rows, min(3, len(rows))):
+        q.append([r[0], r[2]])
+    for g in gs:
+        lv = sorted({F(r[2]) for r in rows if r[0] == g})
+        mids = [(a + b) / 2 for a, b in zip(lv, lv[1:])]
+        if mids:
+            q.append([g, str(rng.choice(mids))])
+        q.append([g, str(rng.choice(lv) + rng.choice([F(-1, 128), F(1, 128), F(1, 256)]))])
+        if rng.random() < 0.5:
+            q.append([g, str(rng.choice([F(-1000), F(1000), lv[0] - 1, lv[-1] + 1]))])
+    if rng.random() < 0.15:
+        q.append([-1, str(rng.choice([F(0), F(1, 2), F(1)]))])
+    rng.shuffle(q)
+    return q
 
 
 def exhaustive_cases(ngroups, nlevels, max_rows, cfg_cycle):
@@ -255,6 +297,9 @@ def shrink_case(case):
     for gsz in (1, 2, 3, 5, 10):
         if gsz < case["grid"]:
             yield dict(case, grid=gsz)
+    if len(case.get("query") or []) > 1:
+        for i in range(len(case["query"])):
+            yield dict(case, query=case["query"][:i] + case["query"][i + 1:])
     for k in ("xidx", "sfidx", "yidx"):
         if case.get(k, "default") != "default":
             yield dict(case, **{k: "default"})
@@ -345,8 +390,34 @@ def run_impl(case):
             "const": float(b.prediction_constant) if "prediction_constant" in b else None,
         }
     pmf = to._pmf_predict(X, sensitive_features=sv)
-    return {"rules": rules, "keys": sorted(str(k) for k in d.keys()),
-            "pmf0": [float(v) for v in pmf[:, 0]], "pmf1": [float(v) for v in pmf[:, 1]]}
+    out = {"rules": rules, "keys": sorted(str(k) for k in d.keys()),
+           "pmf0": [float(v) for v in pmf[:, 0]], "pmf1": [float(v) for v in pmf[:, 1]]}
+    if case.get("query"):
+        # the PREDICT path on rows the fit has not seen (other container than at fit time on purpose)
+        qs = np.array([float(F(s)) for _, s in case["query"]])
+        qg = [qname(case, g) for g, _ in case["query"]]
+        Xq = qs.reshape(-1, 1) if pandas_like else pd.DataFrame({"score": qs})
+        qsf = np.array(qg) if case["container"] in ("list", "list2d") else list(qg)
+        pq = to._pmf_predict(Xq, sensitive_features=qsf)
+        out["qpmf0"] = [float(v) for v in pq[:, 0]]
+        out["qpmf1"] = [float(v) for v in pq[:, 1]]
+        lab = np.asarray(to.predict(Xq, sensitive_features=qsf, random_state=int(case.get("pseed", 0))))
+        out["qlabels"] = [int(v) for v in lab.reshape(-1).tolist()]
+        lab2 = np.asarray(to.predict(Xq, sensitive_features=qsf, random_state=np.random.RandomState(int(case.get("pseed", 0)))))
+        out["qlabels2"] = [int(v) for v in lab2.reshape(-1).tolist()]
+    return out
+
+
+def qname(case, g):
+    """sensitive-feature value of a query row; -1 = a value not seen by fit"""
+    if g == -1:
+        return "unseen" if case.get("gnames", "str") == "str" else 999
+    return gname(case, g)
+
+
+def query_draws(case):
+    """the uniform numbers predict(random_state=pseed) draws for the query rows (trusted generator)"""
+    return [F(float(u)) for u in np.random.RandomState(int(case.get("pseed", 0))).rand(len(case["query"]))]
 
 
 # ------------------------------------------------------------------------------- protocol lines
@@ -367,7 +438,42 @@ def model_lines(case, i_impl):
             out.append(f"thr.eo {case['objective']} {proto.b(case['flip'])} {case['grid']} {f} {sc} {lb}")
         else:
             out.append(f"thr.simple {xm} {ym} {proto.b(case['flip'])} {case['grid']} {f} {sc} {lb}")
+    if case.get("query"):
+        # fit -> predict end to end in the model, at the implementation's grid index (LAST line)
+        gs, _ = groups_of(case)
+        names = proto.strs([str(gname(case, g)) for g in gs])
+        qg = proto.strs([str(qname(case, g)) for g, _ in case["query"]])
+        qs = proto.lst([F(s) for _, s in case["query"]])
+        us = proto.lst(query_draws(case))
+        f = forces[-1]
+        if case["constraint"] == "equalized_odds":
+            out.append(f"thrp.eo {case['objective']} {proto.b(case['flip'])} {case['grid']} {f} {sc} {lb} {names} {qg} {qs} {us}")
+        else:
+            out.append(f"thrp.simple {xm} {ym} {proto.b(case['flip'])} {case['grid']} {f} {sc} {lb} {names} {qg} {qs} {us}")
     return out
+
+
+def same_rule(ir, mr):
+    """implementation's Bunch (floats) and the model's rule (Fractions) are the same randomised rule: the same
+    operations with the same weights (operations of weight <= WTOL ignored), the same p_ignore / prediction_constant"""
+    def ops_i(r):
+        return sorted((str(_thr_val(op[1])), op[0] == ">", float(w)) for w, op in ((r["p0"], r["op0"]), (r["p1"], r["op1"]))
+                      if abs(float(w)) > WTOL)
+
+    def ops_m(r):
+        return sorted((str(op[1]), bool(op[0]), float(w)) for w, op in ((r["p0"], r["op0"]), (r["p1"], r["op1"]))
+                      if abs(float(w)) > WTOL)
+    a, b = ops_i(ir), ops_m(mr)
+    if len(a) != len(b) or any(x[0] != y[0] or x[1] != y[1] or abs(x[2] - y[2]) > TOL for x, y in zip(a, b)):
+        return False
+    if (ir.get("p_ignore") is None) != (mr.get("p_ignore") is None):
+        return False
+    if ir.get("p_ignore") is not None:
+        if abs(ir["p_ignore"] - float(mr["p_ignore"])) > TOL:
+            return False
+        if abs(ir["p_ignore"]) > WTOL and abs(ir["const"] - float(mr["const"])) > TOL:
+            return False
+    return True
 
 
 def _p_op(tok):
@@ -637,4 +743,8 @@ def case_tags(case, o):
         tags.append("group-with-all-scores-tied")
     if any(len({s for s, _ in rows[g]}) < len(rows[g]) for g in gs):
         tags.append("ties-in-group")
+    if case.get("query"):
+        tags.append("predict-path-query")
+        if any(g == -1 for g, _ in case["query"]):
+            tags.append("query-has-unseen-group")
     return tags
